@@ -20,6 +20,7 @@ package main
 import (
 	"bufio"
 	"bytes"
+	"errors"
 	"fmt"
 	"io"
 	"net"
@@ -32,6 +33,8 @@ import (
 
 	"github.com/valyala/fasthttp"
 )
+
+var errC12Close = errors.New("c12: transport close failed")
 
 type c12Addr struct{ id int }
 
@@ -50,6 +53,7 @@ type c12Conn struct {
 	remote       net.Addr
 	id           int
 	closedCh     chan struct{} // closed on the first server-side Close
+	failClose    bool          // Close reports an error (the transport is closed all the same)
 }
 
 func newC12Conn(id, ip int) *c12Conn {
@@ -99,6 +103,9 @@ func (c *c12Conn) Close() error {
 		c.serverClosed = true
 		close(c.closedCh)
 		c.cond.Broadcast()
+	}
+	if c.failClose {
+		return errC12Close
 	}
 	return nil
 }
@@ -400,7 +407,7 @@ func (w *c12World) waitGone(cs *c12ConnSt, want fasthttp.ConnState) bool {
 }
 
 // open starts a connection and sends one request (malformed if bad); returns false if the harness got stuck.
-func (w *c12World) open(entry byte, ip int, bad bool) bool {
+func (w *c12World) open(entry byte, ip int, bad, fault bool) bool {
 	id := len(w.conns)
 	cs := &c12ConnSt{c: newC12Conn(id, ip), entry: entry, ip: ip,
 		entered: make(chan struct{}, 4), release: make(chan byte, 1), hjEnter: make(chan struct{}, 1), hjGo: make(chan struct{}),
@@ -416,6 +423,10 @@ func (w *c12World) open(entry byte, ip int, bad bool) bool {
 		cs.c.clientWrite([]byte(fmt.Sprintf("GET /%d HTTP/1.1\r\nHost: h\r\n\r\n", id)))
 	}
 	op += string(entry) + strconv.Itoa(ip)
+	if fault {
+		cs.c.failClose = true
+		op += "f"
+	}
 	if entry == 's' {
 		select {
 		case w.ln.ch <- cs.c:
@@ -650,6 +661,27 @@ func (w *c12World) finish() {
 			w.do('K', k)
 		}
 	}
+	// follow-up: with everything closed, one more connection from every address that was used must be admitted by
+	// the per-IP limit (a leaked registration shows up as an unjustified 429) and is closed again
+	if w.M > 0 && w.stuck == "" {
+		var used [4]bool
+		for _, cs := range w.conns {
+			used[cs.ip] = true
+		}
+		entry := byte('d')
+		if w.mode == 's' {
+			entry = 's'
+		}
+		for ip := 1; ip < 4 && w.stuck == ""; ip++ {
+			if !used[ip] || (entry == 's' && !w.serving) {
+				continue
+			}
+			k := len(w.conns)
+			if w.open(entry, ip, false, false) && w.conns[k].parked {
+				w.do('C', k)
+			}
+		}
+	}
 	if w.serving && w.stuck == "" {
 		w.stopServe()
 	}
@@ -726,9 +758,10 @@ func (w *c12World) monitor(mode byte) (string, string) {
 func init() {
 	Register(&Prop{
 		ID: "C12",
-		Rule: "seq: histories of <=14 ops over {connect via Serve/ServeConn from ip 0..3 (well-formed or malformed request), release handler (keep-alive / Connection: close / hijack), " +
+		Rule: "seq: histories of <=14 ops over {connect via Serve/ServeConn from ip 0..3 (well-formed or malformed request; a quarter of the connections have a transport whose Close() returns an error), release handler (keep-alive / Connection: close / hijack), " +
 			"next request, client close, hijack handler returns, owner closes a kept hijacked connection (twice), listener close} for mode in {Serve once, ServeConn only, mixed} x Concurrency 1..3 x MaxConnsPerIP 0..2 x KeepHijackedConns; " +
 			"every op is completed before the next starts (gates, ConnState hook, ServeConn return), counters sampled after each op and validated by the Lean model; " +
+			"after the last op everything is closed and one follow-up connection per used address must pass the per-IP limit; " +
 			"burst: <=8 connections started at once through ServeConn/Serve with parked handlers (monitor only); " +
 			"non-trivial = at least one connection rejected or hijacked, or two served at once; distinct = distinct arguments",
 		NoShrink: true,
@@ -768,7 +801,7 @@ func init() {
 						if entry == 's' && !w.serving {
 							continue
 						}
-						w.open(entry, x&3, op == 'B')
+						w.open(entry, x&3, op == 'B', x&8 != 0)
 					case 'L':
 						if w.serving && mode == 'm' {
 							w.stopServe()
@@ -853,7 +886,8 @@ func init() {
 			}{
 				{'d', 1, 0, 0, "O\x01X\x00"}, {'d', 1, 1, 0, "O\x01O\x01O\x02"}, {'s', 1, 1, 0, "O\x01O\x01O\x02R\x00X\x00O\x02"},
 				{'s', 2, 1, 0, "O\x01H\x00O\x01J\x00O\x01"}, {'s', 2, 1, 1, "O\x01H\x00J\x00O\x01K\x00O\x01"}, {'d', 2, 2, 1, "O\x01H\x00J\x00K\x00"},
-				{'m', 1, 0, 0, "O\x00O\x04O\x00O\x04"}, {'m', 2, 1, 0, "O\x01O\x05L\x00O\x06"}, {'s', 1, 0, 0, "B\x00O\x00B\x00"},
+				{'m', 1, 0, 0, "O\x00O\x04O\x00O\x04"}, {'d', 2, 1, 0, "O\x09X\x00O\x01"}, {'s', 1, 1, 0, "O\x09O\x0aC\x00O\x01"},
+				{'s', 2, 1, 0, "O\x09H\x00J\x00O\x01"}, {'d', 2, 1, 1, "O\x09H\x00J\x00K\x00O\x01"}, {'d', 1, 2, 0, "O\x01O\x0aO\x09"}, {'m', 2, 1, 0, "O\x01O\x05L\x00O\x06"}, {'s', 1, 0, 0, "B\x00O\x00B\x00"},
 			}
 			for _, f := range fixed {
 				emit("seq", []byte{f.mode}, N(f.c), N(f.m), N(f.keep), B(f.ops))
@@ -884,6 +918,9 @@ func init() {
 						if r.Bool() {
 							x |= 4
 						}
+						if r.Chance(25) {
+							x |= 8
+						}
 						conns++
 					default:
 						x = r.Intn(conns)
@@ -901,7 +938,7 @@ func init() {
 				k := 2 + r.Intn(7)
 				ops := make([]byte, k)
 				for j := range ops {
-					ops[j] = byte(r.Intn(8))
+					ops[j] = byte(r.Intn(16))
 				}
 				emit("burst", []byte{mode}, N(C), N(M), N(0), ops)
 			}
@@ -924,9 +961,10 @@ func c12Burst(w *c12World, mode byte, ops []byte, tags []string) *Case {
 		if mode == 'd' || (mode == 'm' && ops[j]&4 != 0) {
 			entry = 'd'
 		}
-		css[j] = &c12ConnSt{c: newC12Conn(j, int(ops[j]&3)), entry: entry, ip: int(ops[j] & 3),
+		css[j] = &c12ConnSt{c: newC12Conn(j, int(ops[j]&3)), entry: entry, ip: int(ops[j] & 3), // bit 3: Close fails
 			entered: make(chan struct{}, 4), release: make(chan byte, 1), hjEnter: make(chan struct{}, 1), hjGo: make(chan struct{}),
 			hjRet: make(chan struct{}), state: make(chan fasthttp.ConnState, 4), ret: make(chan error, 1)}
+		css[j].c.failClose = ops[j]&8 != 0
 		css[j].c.clientWrite([]byte(fmt.Sprintf("GET /%d HTTP/1.1\r\nHost: h\r\n\r\n", j)))
 	}
 	w.mu.Lock()
